@@ -99,6 +99,8 @@ type GenAccount struct {
 	// RawAddr, when set, is used instead of Addr: an account address of any length (e.g. 32 bytes, like module-derived or
 	// interchain accounts have). Base accounts only.
 	RawAddr []byte
+	// NoAuthAccount: only the bank balance goes into the genesis, no x/auth account record ("orphan balance")
+	NoAuthAccount bool
 }
 
 func (ga GenAccount) addrBytes() []byte {
@@ -464,7 +466,9 @@ func (c *Chain) buildGenesis() *abci.RequestInitChain {
 		default:
 			panic("unknown account kind " + ga.Kind)
 		}
-		genAccs = append(genAccs, acc)
+		if !ga.NoAuthAccount { // a balance without an account record: valid genesis (x/auth creates records lazily)
+			genAccs = append(genAccs, acc)
+		}
 		if !ga.Coins.IsZero() {
 			balances = append(balances, banktypes.Balance{Address: sdk.AccAddress(ga.addrBytes()).String(), Coins: ga.Coins.Sort()})
 			supply = supply.Add(ga.Coins...)
